@@ -271,10 +271,10 @@ PROPS["C15"] = dict(
                  harnesses={"c15_native_compressed_enumeration": dict(anchor="CompressedLog::from",
                             bound="BOUNDED STAND-IN, native exhaustive enumeration: all logs of <= 3 steps x <= 3 distinct names out of 4 (68921 logs)"),
                             "c15_native_logger_json_roundtrip": dict(anchor="Logger -> Log -> to_json",
-                            bound="BOUNDED STAND-IN, native run: 512 logger configurations (loop lengths 0,1,5,6 x two periodic rules with periods 0..3 x duplicate-name rule x missing-source rule x explicit iteration-counter rule); recorded steps and decoded JSON export compared with independently computed expectation")})],
+                            bound="BOUNDED STAND-IN, native run: 512 logger configurations (loop lengths 0,1,5,6 x two periodic rules with periods 0..3 x duplicate-name rule x missing-source rule x explicit iteration-counter rule); recorded steps and the decoded JSON and CBOR exports compared with independently computed expectation")})],
     min_obligations={"quick": 6, "thorough": 6},
     uncovered=["compressed export kernel CompressedLog::from is only covered by a BOUNDED native enumeration (CBMC does not finish even on one concrete two-step log: 10 min / 22 GB; Verus rejects its &mut-capturing closure; Kani harness kept in contracts/attic/)",
-               "JSON export decoding and the RON configuration export only through BOUNDED native runs; CBOR decoding not covered; the two ACO templates are not serialised (private parameter fields, TSP instance)"],
+               "JSON export decoding and the RON configuration export only through BOUNDED native runs; the two ACO templates are not serialised (private parameter fields, TSP instance)"],
 )
 
 REG_FILES = ["src/state/registry/mod.rs", "src/state/registry/entry.rs", "src/state/registry/multi.rs"]
